@@ -255,12 +255,12 @@ def run(ctx):
         "walkP (thorough also randwalkP): tot walks over an 18-piece alphabet (bar, fields, except, comma, two names, space, the three quote characters, backslash, *, -, #, newline, :, (, 0xFF) "
         "started behind 'f:x|fields '. "
         "store: every sequence of length <= 3 over a 10-lexeme alphabet through GrpcV1.Search (SeqQL and legacy) of real stores, one per mapping type. "
-        "deep: nesting-depth classes open^n f:x close^n for 5 shapes (parentheses, unclosed parentheses, not, not(, and-not chain) x n in {1000, 3*10^6} "
+        "deep: nesting-depth classes open^n f:x close^n for 5 shapes (parentheses, unclosed parentheses, not, not(, and-not chain) x n in {1000, 3*10^6, 3*10^7 (while the query stays under 200 MB: parentheses, unclosed, not, not( )} "
         "(thorough also 10^5, 10^6), each call in a child process so that a fatal stack overflow is observed as an outcome.")
     ctx.assumptions += [
         "totality is decided over the enumerated lexeme alphabets (bounded length) and seeded random walks over them, not over arbitrary byte strings; no byte-level mutation fuzzing",
         "a hang is a parser call that does not return within 20 s (observed calls take microseconds; 300 s for the deep classes)",
-        "nesting depth is sampled at a few sizes (B4 shape classes) up to 3*10^6, a query of 3-6 MB, which the store's gRPC server (256 MB limit) accepts",
+        "nesting depth is sampled at a few sizes (B4 shape classes) up to 3*10^7, a query of 30-150 MB, which the store's gRPC server (256 MB limit) accepts",
         "the truth table is evaluated on the returned parser.ASTNode with NAND read as children[1] AND NOT children[0] (as frac/processor/eval_tree.go builds node.NewNAnd); leaves are one-word literals",
         "field values are modelled as rune strings over the palette of Parser.tla (section iv): what is a word rune is taken from unicode.IsLetter/IsNumber/'_' as the "
         "text tokenizer (tokenizer/text_tokenizer.go) has it, represented by one or two runes per (class, UTF-8 width, case) plus the ends of the ASCII, Latin-1 and Cyrillic case ranges; other escapes than \\*, runes whose "
